@@ -228,7 +228,12 @@ def explore_file(case, depth, res):
 
     def make():
         return System(data, lay, recs)
-    s0 = make()
+    try:
+        s0 = make()
+    except Exception as err:  # noqa - the files are well formed: building the index must not raise
+        res.violate({'kind': 'index_raises', 'exc': type(err).__name__}, {'recs': case['recs'], 'history': []},
+                    'building the index of a well-formed file raised %s: %s' % (type(err).__name__, err))
+        return 0, 0, False, len(menu)
     for sig, msg in check_index(s0):
         res.violate(sig, {'recs': case['recs'], 'history': []}, msg)
     outcomes = []
@@ -267,6 +272,10 @@ def replay(case):
 
     def make():
         return System(data, lay, recs)
-    bad = check_index(make()) if not case.get('history') else []
+    try:
+        bad = check_index(make()) if not case.get('history') else []
+    except Exception as err:  # noqa
+        return [{'sig': {'kind': 'index_raises', 'exc': type(err).__name__}, 'case': case,
+                 'msg': 'building the index of a well-formed file raised %s: %s' % (type(err).__name__, err)}]
     bad += bfs.replay_history(make, step, case.get('history', []))
     return [{'sig': s, 'case': case, 'msg': m} for s, m in bad]
